@@ -38,8 +38,56 @@ fn is_iter_recv(e: &Expr) -> bool {
         "self" | "self.inner" | "self.inner.inner_mut()" | "self.inner.inner()" | "self.inner_mut()" | "self.inner()" | "s.inner_mut()")
 }
 
+/// Splits `(L op R)` at its top-level binary operator (operators are always rendered with surrounding blanks).
+fn top_binop(c: &str) -> Option<(String, String, String)> {
+    let c = c.trim();
+    if !(c.starts_with('(') && c.ends_with(')')) { return None; }
+    let inner = &c[1..c.len() - 1];
+    let mut depth = 0i32;
+    let chars: Vec<(usize, char)> = inner.char_indices().collect();
+    for (k, (i, ch)) in chars.iter().enumerate() {
+        match ch { '(' => depth += 1, ')' => { depth -= 1; if depth < 0 { return None; } } _ => {} }
+        if depth == 0 && *ch == ' ' {
+            for op in ["<", "≤", "≥", ">", "=", "≠", "∨", "∧"] {
+                let pat = format!(" {op} ");
+                if inner[*i..].starts_with(&pat) {
+                    let l = inner[..*i].to_string(); let r = inner[*i + pat.len()..].to_string();
+                    // both sides must be balanced
+                    let bal = |t: &str| { let mut d = 0i32; for ch in t.chars() { match ch { '(' => d += 1, ')' => { d -= 1; if d < 0 { return false; } } _ => {} } } d == 0 };
+                    if bal(&l) && bal(&r) { return Some((l, op.to_string(), r)); }
+                }
+            }
+        }
+        let _ = k;
+    }
+    None
+}
+
+/// Canonical negation of a condition: comparisons are flipped instead of being wrapped in `¬`.
+pub fn neg(c: &str) -> String {
+    let t = c.trim();
+    if let Some(rest) = t.strip_prefix("(¬ ") { if let Some(x) = rest.strip_suffix(')') { return x.to_string(); } }
+    if let Some((l, op, r)) = top_binop(t) {
+        let nop = match op.as_str() { "<" => "≥", "≥" => "<", "≤" => ">", ">" => "≤", "=" => "≠", "≠" => "=", _ => "" };
+        if !nop.is_empty() { return format!("({l} {nop} {r})"); }
+    }
+    format!("(¬ {t})")
+}
+
+/// Is this condition in the non-canonical orientation (`<`, `>`, `≠`, `¬ _`)? Conditionals are rendered on the canonical one.
+fn flipped(c: &str) -> bool {
+    let t = c.trim();
+    if t.starts_with("(¬ ") { return true; }
+    matches!(top_binop(t), Some((_, op, _)) if op == "<" || op == ">" || op == "≠")
+}
+
 fn merge(c: &str, a: &str, b: &str) -> String {
-    if a == b { a.to_string() } else { format!("(if {c} then {a} else {b})") }
+    if a == b { return a.to_string(); }
+    if flipped(c) { return merge(&neg(c), b, a); }
+    // propositional shortcuts, so that `x || y` and `if x { true } else { y }` are the same definition
+    if a == "True" { return format!("({c} ∨ {b})"); }
+    if b == "False" { return format!("({c} ∧ {a})"); }
+    format!("(if {c} then {a} else {b})")
 }
 
 pub fn ex(e: &Expr, env: &mut Env) -> Result<String, String> {
@@ -66,7 +114,7 @@ pub fn ex(e: &Expr, env: &mut Env) -> Result<String, String> {
         Expr::Unsafe(u) => block(&u.block, env)?.unwrap_or_else(|| "()".into()),
         Expr::Block(b) => block(&b.block, env)?.unwrap_or_else(|| "()".into()),
         Expr::Unary(u) => match u.op {
-            UnOp::Not(_) => format!("(¬ {})", ex(&u.expr, env)?),
+            UnOp::Not(_) => neg(&ex(&u.expr, env)?),
             UnOp::Deref(_) => ex(&u.expr, env)?,
             _ => return Err("unary operator".into()),
         },
@@ -78,7 +126,7 @@ pub fn ex(e: &Expr, env: &mut Env) -> Result<String, String> {
                     let is_or = matches!(b.op, BinOp::Or(_));
                     let l = ex(&b.left, env)?;
                     let mut renv = env.clone();
-                    renv.path.push(if is_or { format!("(¬ {l})") } else { l.clone() });
+                    renv.path.push(if is_or { neg(&l) } else { l.clone() });
                     let r = ex(&b.right, &mut renv)?;
                     renv.path.pop();
                     // right operand evaluated iff (is_or: ¬l) (and: l)
@@ -160,7 +208,7 @@ pub fn ex(e: &Expr, env: &mut Env) -> Result<String, String> {
                 if arm.guard.is_some() { return Err("match guard".into()); }
                 let mut aenv = env.clone();
                 aenv.safe = Vec::new();
-                aenv.path.push(if pat == "true" { c.clone() } else { format!("(¬ {c})") });
+                aenv.path.push(if pat == "true" { c.clone() } else { neg(&c) });
                 let v = ex(&arm.body, &mut aenv)?;
                 aenv.path.pop();
                 if pat == "true" { t = Some((v, aenv)) } else if pat == "false" { f = Some((v, aenv)) } else { return Err("match literal".into()) }
@@ -184,7 +232,7 @@ pub fn ex(e: &Expr, env: &mut Env) -> Result<String, String> {
             let mut fe = env.clone();
             fe.safe = Vec::new();
             let fv = match &i.else_branch {
-                Some((_, e)) => { fe.path.push(format!("(¬ {c})")); let v = Some(ex(e, &mut fe)?); fe.path.pop(); v }
+                Some((_, e)) => { fe.path.push(neg(&c)); let v = Some(ex(e, &mut fe)?); fe.path.pop(); v }
                 None => None,
             };
             if te.publ != fe.publ { return Err("publication differs between branches".into()); }
@@ -286,7 +334,10 @@ pub fn find_fn<'a>(file: &'a syn::File, owner: &str, name: &str) -> Option<FnRef
 }
 
 fn safe_text(env: &Env) -> String {
-    if env.safe.is_empty() { "True".into() } else { env.safe.join(" ∧\n  ") }
+    // sorted: the order in which the source happens to evaluate its sub-expressions is not part of the definition
+    let mut v = env.safe.clone();
+    v.sort();
+    if v.is_empty() { "True".into() } else { v.join(" ∧\n  ") }
 }
 
 /// Symbolically executes one method and renders the five definitions of a state-transforming function.
@@ -310,6 +361,36 @@ fn state_fn(src: &mut Src, path: &str, owner: &str, func: &str, lean: &str, ret_
     Ok(o)
 }
 
+/// Offset (in elements, from slot 0) of a pointer into the storage: `<storage>.as_ptr()`, `.as_mut_ptr()`, `p.add(k)`, or a local bound to one.
+fn ptr_off(e: &Expr, env: &mut Env) -> Result<String, String> {
+    match e {
+        Expr::Paren(p) => ptr_off(&p.expr, env),
+        Expr::Cast(c) => ptr_off(&c.expr, env),
+        Expr::Path(_) => {
+            let n = q(e);
+            match env.vars.get(&n) { Some(v) if v.starts_with("PTR@") => Ok(v[4..].to_string()), _ => Err(format!("`{n}` is not a pointer into the storage")) }
+        }
+        Expr::MethodCall(m) if m.method == "add" && m.args.len() == 1 => {
+            let base = ptr_off(&m.receiver, env)?;
+            let off = ex(&m.args[0], env)?;
+            Ok(if base == "0" { off } else { format!("({base} + {off})") })
+        }
+        _ => { let t = q(e); if t.ends_with(".as_ptr()") || t.ends_with(".as_mut_ptr()") { Ok("0".into()) } else { Err(format!("pointer expression `{t}`")) } }
+    }
+}
+
+/// A `let` inside a chunk function: a pointer into the storage, or a value.
+fn chunk_let(l: &syn::Local, env: &mut Env) -> Result<(), String> {
+    let name = match &l.pat { Pat::Ident(i) => i.ident.to_string(), Pat::Type(t) => match &*t.pat { Pat::Ident(i) => i.ident.to_string(), _ => return Err("let pattern".into()) }, _ => return Err("let pattern".into()) };
+    let init = &l.init.as_ref().ok_or("let without initialiser")?.expr;
+    let mut probe = env.clone();
+    match ptr_off(init, &mut probe) {
+        Ok(off) => { *env = probe; env.vars.insert(name, format!("PTR@{off}")); }
+        Err(_) => { let v = ex(init, env)?; env.vars.insert(name, v); }
+    }
+    Ok(())
+}
+
 /// `slice::from_raw_parts[_mut](ptr[.add(off)], len)` possibly wrapped in `transmute::<..>(..)`, or an empty slice literal.
 fn slice_desc(e: &Expr, env: &mut Env) -> Result<(String, String), String> {
     match e {
@@ -326,15 +407,7 @@ fn slice_desc(e: &Expr, env: &mut Env) -> Result<(String, String), String> {
                 slice_desc(&c.args[0], env)
             } else if fname == "slice::from_raw_parts" || fname == "slice::from_raw_parts_mut" {
                 if c.args.len() != 2 { return Err("from_raw_parts arity".into()); }
-                let off = match &c.args[0] {
-                    Expr::MethodCall(m) if m.method == "add" => {
-                        let base = q(&m.receiver);
-                        if !(base == "ptr" || base.ends_with(".as_ptr()") || base.ends_with(".as_mut_ptr()")) { return Err(format!("pointer base `{base}`")); }
-                        ex(&m.args[0], env)?
-                    }
-                    Expr::Path(_) if q(&c.args[0]) == "ptr" => "0".into(),
-                    o => return Err(format!("pointer expression `{}`", q(o))),
-                };
+                let off = ptr_off(&c.args[0], env)?;
                 let len = ex(&c.args[1], env)?;
                 Ok((off, len))
             } else { Err(format!("call `{fname}`")) }
@@ -399,13 +472,7 @@ fn chunk_fn(src: &mut Src, func: &str, lean: &str, vmem: bool) -> Result<String,
                 return match s { Stmt::Expr(e, None) => tail(e, env), _ => Err("closure does not end in an expression".into()) };
             }
             match s {
-                Stmt::Local(l) => {
-                    let name = match &l.pat { Pat::Ident(i) => i.ident.to_string(), _ => return Err("let pattern".into()) };
-                    let init = &l.init.as_ref().ok_or("let without initialiser")?.expr;
-                    let t = q(init);
-                    if t.ends_with(".as_ptr()") || t.ends_with(".as_mut_ptr()") { env.vars.insert(name, "PTR".into()); }
-                    else { let v = ex(init, env)?; env.vars.insert(name, v); }
-                }
+                Stmt::Local(l) => chunk_let(l, env)?,
                 _ => return Err("statement in closure".into()),
             }
         }
@@ -417,23 +484,28 @@ fn chunk_fn(src: &mut Src, func: &str, lean: &str, vmem: bool) -> Result<String,
     match t {
         Expr::If(i) => {
             let c = ex(&i.cond, &mut env)?;
-            let pair = |e: &Expr, env: &mut Env, c: &str| -> Result<((String, String), (String, String)), String> {
-                let e = match e { Expr::Block(b) => match b.block.stmts.last() { Some(Stmt::Expr(e, None)) => e, _ => return Err("branch".into()) }, e => e };
-                match e {
-                    Expr::Tuple(t) if t.elems.len() == 2 => {
-                        env.path.push(c.to_string());
-                        let a = slice_desc(&t.elems[0], env)?;
-                        let b = slice_desc(&t.elems[1], env)?;
-                        env.path.pop();
-                        Ok((a, b))
-                    }
-                    _ => Err("branch is not a pair of slices".into()),
+            // a branch: `let`s (visible in that branch only), then the pair of slices
+            fn pair(stmts: &[Stmt], env: &mut Env, c: &str) -> Result<((String, String), (String, String)), String> {
+                let saved = env.vars.clone();
+                env.path.push(c.to_string());
+                let mut res = Err("branch is not a pair of slices".to_string());
+                for (k, s) in stmts.iter().enumerate() {
+                    if k + 1 < stmts.len() { match s { Stmt::Local(l) => chunk_let(l, env)?, _ => return Err("statement in a branch".into()) } continue; }
+                    let e = match s { Stmt::Expr(e, None) => e, _ => return Err("branch does not end in an expression".into()) };
+                    res = match e {
+                        Expr::Tuple(t) if t.elems.len() == 2 => { let a = slice_desc(&t.elems[0], env)?; let b = slice_desc(&t.elems[1], env)?; Ok((a, b)) }
+                        Expr::Block(b) => { env.path.pop(); let r = pair(&b.block.stmts, env, c); env.path.push(c.to_string()); r }
+                        _ => Err("branch is not a pair of slices".into()),
+                    };
                 }
-            };
-            let then_e = match i.then_branch.stmts.last() { Some(Stmt::Expr(e, None)) => e, _ => return Err("then branch".into()) };
-            let (th, tt) = pair(then_e, &mut env, &c)?;
+                env.path.pop();
+                env.vars = saved;
+                res
+            }
+            let (th, tt) = pair(&i.then_branch.stmts, &mut env, &c)?;
             let else_e = &i.else_branch.as_ref().ok_or("no else branch")?.1;
-            let (eh, et) = pair(else_e, &mut env, &format!("(¬ {c})"))?;
+            let else_stmts: Vec<Stmt> = match &**else_e { Expr::Block(b) => b.block.stmts.clone(), e => vec![Stmt::Expr(e.clone(), None)] };
+            let (eh, et) = pair(&else_stmts, &mut env, &neg(&c))?;
             o.push_str(&format!("def {lean}.headOff {PARAMS} : Nat := {}\n", merge(&c, &th.0, &eh.0)));
             o.push_str(&format!("def {lean}.headLen {PARAMS} : Nat := {}\n", merge(&c, &th.1, &eh.1)));
             o.push_str(&format!("def {lean}.tailOff {PARAMS} : Nat := {}\n", merge(&c, &tt.0, &et.0)));
